@@ -78,7 +78,7 @@ def run(ctx):
         reg = api_summary(ctx, sn, 'creg_finish')
         w = where_of(reg)
         for p in reg.ok_paths:
-            env = fields(fields(fields(p.payload).get('message')).get('envelope'))
+            env = fields(msg_envelope(fields(p.payload).get('message')))
             macs = [v for v in env.values() if app_args(v, 'Mac')]
             upl = fields(fields(p.payload).get('message'))
             cpk = [v for v in upl.values() if v is not None and v[0] == 'adt' and 'PublicKey' in v[1]]
@@ -86,7 +86,7 @@ def run(ctx):
             detail = 'no Mac in envelope'
             if macs and cpk:
                 m = macs[0][2][1]
-                spk = an.ser_pk(('fld', ('fld', Sym('response'), 'server_s_pk'), '0'))
+                spk = an.ser_pk(('fld', role_term(ctx, sn, reg, 4, Sym('response'), 'pubkeys'), '0'))
                 id_u = an.ident_choice(p, ('fld', ids, 'client'), an.ser_pk(fields(cpk[0]).get('0')))
                 id_s = an.ident_choice(p, ('fld', ids, 'server'), spk)
                 nonce = cat_parts(m)[0] if cat_parts(m) else None
@@ -135,7 +135,7 @@ def run(ctx):
         for which in ('sreg_start', 'slog_start'):
             s = api_summary(ctx, sn, which)
             for p in s.ok_paths:
-                ev = fields(fields(p.payload).get('message')).get('evaluation_element')
+                ev = msg_eval(fields(p.payload).get('message'))
                 keys = find_apps(ev, 'DeriveKey')
                 rep.ob('R05.5', '%s: credential identifier is in the OPRF key term' % which, bool(keys) and contains(keys[0], Sym('cred_id')),
                        show(ev)[:300], where_of(s), sn)
